@@ -263,6 +263,37 @@ PROPS = {
                 "(renamed, under same/different/nested domains, under jumps); oracle: independent occurrence count",
         "assumptions": ["the canoniser and duplicate-marking models are the code's: checked by K5/K6 on every run"],
     },
+    "C04": {
+        "module": "HctlProofs.Props.C04",
+        "theorems": ["Hctl.C04.cache_transparent", "Hctl.C04.cached_eq_pure", "Hctl.C04.batch_sound", "Hctl.C04.batch_results_agree",
+                     "Hctl.C04.init_cacheOK_plain", "Hctl.C04.init_cacheOK_noSharing", "Hctl.evalNode_sound",
+                     "Hctl.lookup_spec", "Hctl.store_ok"],
+        "ks": ["o04", "k7"],
+        "spec_tied": ["o04:pure_", "k7:pure_"],
+        "full": False,
+        "not_proved": 'hypotheses of the cache theorem, NOT proved in Lean: KeySem (equal canonical keys => the cached set renamed back denotes the other sub-formula), KeyWild (only %w% has the key of %w%), AttrSpec (attractor computation = terminal SCCs), GraphAsync (a transition changes the state), and that all keys in the duplicate map have at most one variable; they are the semantic content of C09 and of the library specification, and are exercised by K5/K6/K7 and the batch oracles on every run' + "; the initial context with wild-cards pre-loaded (extend_context_with_wild_cards) is covered "
+                      "by the invariant's clauses but not derived from the model's function in Lean; the progress callback is not "
+                      "an input of the model (it only receives references in Rust) — checked by the oracle",
+        "rule": "O04: batches of 2-4 extended formulae with planted overlaps (sub-formulae shared up to renaming, closed under fresh "
+                "quantifiers with/without domains, swapped-role two-variable duplicates) on all networks, k=1..3: batch vs each formula "
+                "alone vs eval_node with an empty duplicate map, reversed order, repetition, progress observer",
+        "assumptions": EVAL_ASSUME,
+    },
+    "C14": {
+        "module": "HctlProofs.Props.C14",
+        "theorems": ["Hctl.C14.no_panic_trees", "Hctl.C14.preprocessed_goodQ", "Hctl.C14.error_iff_plain",
+                     "Hctl.C14.renameRec_plain", "Hctl.C07.rename_ok_iff"],
+        "ks": ["o14", "k7"],
+        "spec_tied": ["o14:pure_", "k7:pure_"],
+        "full": False,
+        "not_proved": 'hypotheses of the cache theorem, NOT proved in Lean: KeySem (equal canonical keys => the cached set renamed back denotes the other sub-formula), KeyWild (only %w% has the key of %w%), AttrSpec (attractor computation = terminal SCCs), GraphAsync (a transition changes the state), and that all keys in the duplicate map have at most one variable; they are the semantic content of C09 and of the library specification, and are exercised by K5/K6/K7 and the batch oracles on every run' + "; stated for plain formulae (the extended case adds the clause 'missing context label' "
+                      "which the model checks in parseAll and the correspondence compares); panics inside the BDD / graph libraries "
+                      "and stack exhaustion on unbounded nesting are outside the model",
+        "rule": "O14: every string entry point (plain/extended, raw/sanitised, unsafe_ex) under catch_unwind on random, "
+                "grammar-mutated and unicode strings, propositions named like spare BDD variables, arbitrary subsets of the context "
+                "labels, k=0..2; error kinds compared with the model",
+        "assumptions": EVAL_ASSUME,
+    },
 }
 
 # what MANIFEST.json says per property
@@ -367,6 +398,19 @@ MANIFEST_TEXT.update({
                     "random correspondence of the canoniser and duplicate-marker models with the code plus model-free oracles.",
             "note": _FRONT_NOTE + " The char-level = tree-level bridge is correspondence-checked, not proved.",
             "technique": "Lean 4 proof (state invariant of the canonisation pass) + differential correspondence check + independent alpha-equivalence / occurrence-count oracles"},
+})
+
+MANIFEST_TEXT.update({
+    "C04": _ev("Lean theorem evalNode_sound / cache_transparent: from EVERY evaluation context satisfying an explicit invariant (hence after "
+               "any history, with any duplicate counters) the cached evaluator returns exactly the satisfaction set, keeps the invariant "
+               "and restores the open scopes; batches are exact position by position, so order, repetition and sharing cannot matter. "
+               "Two facts about canonical keys and the attractor library specification are hypotheses (see evidence). Oracle: batch vs "
+               "single vs sharing disabled vs reordered vs repeated vs observed runs through the public API.",
+               tech="Lean 4 proof (invariant over the cache state, induction over eval_node) + differential correspondence check + batch oracles"),
+    "C14": _ev("Lean theorems: no panic site of the evaluator model is reachable from preprocessed formulae the graph supports (corollary "
+               "of the cache invariant), and the model's entry point errs exactly for ill-scoped formulae / unknown propositions / too "
+               "few variable sets (with C07). Oracle: every string entry point under catch_unwind on hostile inputs.",
+               tech="Lean 4 proof (panic sites as explicit outcomes, unreachable under the invariant) + differential correspondence check + catch_unwind oracle"),
 })
 
 ALL_IDS = ["C%02d" % i for i in range(1, 21)]
